@@ -10,4 +10,4 @@ Extraction Language OCaml.
 Extraction "model.ml"
   apply_op get_desc get_by_annotation empty_index is_tag dvalid
   step run_hist init_state serve route_request gen_routes gen_default_status repo_ok path_els gstep split c_step new_cache
-  set_defaults spec_defaults gen_defaults rl_serve rl_ip reopen ingest_repo reload_repo set_repo get_repo.
+  set_defaults spec_defaults gen_defaults rl_serve rl_ip reopen ingest_repo reload_repo set_repo get_repo exec_act sess_digest.
